@@ -235,7 +235,7 @@ func report(cfg *config, e *Engine, results []*funcResult, tLoad, tGen, tSolve, 
 	// baseline obligations that disappeared
 	var missing []string
 	for n := range inBase {
-		if !seen[n] {
+		if !seen[n] && cfg.funcRe == "" {
 			missing = append(missing, n)
 		}
 	}
